@@ -1,7 +1,8 @@
 SPECIFICATION Spec
 CONSTANTS
   MaxUsers = 2
-  Addr = 4
-INVARIANT C08_SuppressedIffContained
+  Top = 4
+  Extent = "saturating"
+INVARIANTS C08_SuppressedIffContained C02_NoPanic
 PROPERTY Terminates
 CHECK_DEADLOCK FALSE
